@@ -49,12 +49,19 @@ class Gen:
         self.constr = [('\\imp', 2)] + [(f'\\c{i}', rng.choice([0, 1, 2, 1])) for i in range(nconstr)]
         self.nested, self.disjoint = nested, disjoint
         self.assertions = {}      # label -> (vars in db order, [hyp terms], concl term)
+        self.dv = {}              # label -> list of disjoint pairs (chosen when the text is produced)
+        self.global_d = disjoint and rng.random() < 0.85
         self.order = []           # labels in database order
         self.add('proof-rule-prop-1', [], ('\\imp', 'ph0', ('\\imp', 'ph1', 'ph0')))
         self.add('proof-rule-prop-2', [], ('\\imp', ('\\imp', 'ph0', ('\\imp', 'ph1', 'ph2')), ('\\imp', ('\\imp', 'ph0', 'ph1'), ('\\imp', 'ph0', 'ph2'))))
         self.add('proof-rule-mp', [('\\imp', 'ph0', 'ph1'), 'ph0'], 'ph1')
         for i in range(naxioms):
             self.add(f'ax-{i}', [], self.term(2, VARS[:rng.choice([1, 2, 3])]))
+        if disjoint:
+            for label in self.order:
+                vs = self.assertions[label][0]
+                if not label.startswith('proof-rule') and len(vs) >= 2 and rng.random() < 0.5:
+                    self.dv[label] = [(vs[0], vs[1])]
         for i in range(nrules):
             vs = VARS[:rng.choice([2, 3])]
             self.add(f'rule-{i}', [self.term(1, vs) for _ in range(rng.choice([1, 2]))], self.term(2, vs))
@@ -91,7 +98,12 @@ class Gen:
             label = r.choice([l for l in self.order])
             vs, hyps, concl = self.assertions[label]
             if not hyps:
-                sg = {v: self.term(1, VARS[:3]) for v in vs}
+                if self.dv.get(label):      # respect $d: give every variable its own variable (or a ground term)
+                    pool = [[x] for x in VARS[:3]]
+                    self.r.shuffle(pool)
+                    sg = {v: self.term(1, pool[i % 3]) for i, v in enumerate(vs)}
+                else:
+                    sg = {v: self.term(1, VARS[:3]) for v in vs}
                 facts.append(tuple(reversed(self.apply(label, sg, []))))
             elif label == 'proof-rule-mp':
                 imps = [(t, p) for t, p in facts if not isinstance(t, str) and t[0] == '\\imp']
@@ -130,6 +142,8 @@ class Gen:
     def preamble(self):
         consts = ['#Pattern', '|-', '(', ')'] + [c for c, _ in self.constr]
         out = ['$c ' + ' '.join(consts) + ' $.', '$v ' + ' '.join(VARS) + ' $.']
+        if self.global_d:        # growing top-level disjointness lists
+            out += ['$d ph0 ph1 $.', '$d ph2 ph3 $.', '$d ph0 ph1 ph2 ph3 $.']
         out += [f'{v}-is-pattern $f #Pattern {v} $.' for v in VARS]
         for c, a in self.constr:
             out.append(f'{c[1:]}-is-pattern $a #Pattern ' + show((c,) + tuple(VARS[:a])) + ' $.')
@@ -138,11 +152,14 @@ class Gen:
     def assertion_text(self, label, kw='$a', proof=None):
         vs, hyps, concl = self.assertions[label]
         tail = f' $= {proof} $.' if proof is not None else ' $.'
-        if not hyps:
+        dvl = [f'   $d {a} {b} $.' for a, b in self.dv.get(label, [])]
+        if kw == '$p' and self.disjoint and self.r.random() < 0.6:      # a dummy variable: occurs only in the $d
+            dummy = [x for x in VARS if x not in vs]
+            if dummy and vs:
+                dvl.append(f'   $d {vs[0]} {dummy[-1]} $.')
+        if not hyps and not dvl:
             return f'{label} {kw} |- {show(concl)}{tail}'
-        lines = ['${']
-        if self.disjoint and len(vs) >= 2 and self.r.random() < 0.5:
-            lines.append(f'   $d {vs[0]} {vs[1]} $.')
+        lines = ['${'] + dvl
         for i, h in enumerate(hyps):
             lines.append(f'   {label}.{i} $e |- {show(h)} $.')
         lines.append(f'   {label} {kw} |- {show(concl)}{tail}')
